@@ -327,7 +327,7 @@ def run_and_validate(ctx, worlds, report, max_rejections=12, module="Ps3NetSrvTr
                 import re
                 out = (v2.res.out if v2 is not None else v.res.out)
                 cl = set()
-                for m in re.finditer(r'<<"FAILED", "%s", \{(.*?)\}>>' % re.escape(str(rl.get("name"))), out):
+                for m in re.finditer(r'<<\s*"FAILED",\s*"%s",\s*\{(.*?)\}\s*>>' % re.escape(str(rl.get("name"))), out, re.S):
                     cl |= set(x.strip().strip('"') for x in m.group(1).split(","))
                 sig = "Volume:" + "+".join(sorted(cl))
                 text += "\nviolated clauses: " + ", ".join(sorted(cl))
